@@ -963,7 +963,14 @@ def read_regions(repo):
 WATCHED = (('fem_attribute.py', 'FEMAttribute', 'ids2indices'),
            ('fem_attribute.py', 'FEMAttribute', '_update_id2index'),
            ('fem_attribute.py', 'FEMAttribute', 'values_of'),
-           ('fem_attributes.py', 'FEMAttributes', 'items'))
+           ('fem_attributes.py', 'FEMAttributes', 'items'),
+           # the public in-place edits of a table (rows overwritten / appended, ids assigned) and
+           # what keeps id2index / the owner in step with them
+           ('fem_attribute.py', 'FEMAttribute', 'update'),
+           ('fem_attribute.py', 'FEMAttribute', 'ids'),
+           ('fem_attribute.py', 'FEMAttribute', 'data'),
+           ('fem_attribute.py', 'FEMAttribute', 'data_frame'),
+           ('fem_attribute.py', 'FEMAttribute', '_update_parent'))
 
 
 def watched_hashes(repo):
@@ -975,7 +982,12 @@ def watched_hashes(repo):
         try:
             if fname not in trees:
                 trees[fname] = ast.parse((repo / 'femio' / fname).read_text())
-            out[key] = hashlib.sha256(_canon(_method(_class(trees[fname], cname), mname)).encode()).hexdigest()
+            defs = [n for n in _class(trees[fname], cname).body
+                    if isinstance(n, ast.FunctionDef) and n.name == mname]     # property: getter + setter
+            if not defs:
+                raise TranslateError(f'{cname}.{mname} not found')
+            out[key] = hashlib.sha256('\n'.join(
+                ','.join(ast.unparse(d) for d in n.decorator_list) + _canon(n) for n in defs).encode()).hexdigest()
         except (TranslateError, OSError, SyntaxError) as e:
             out[key] = f'missing: {e}'
     # the branch of FEMData.write that produces the file
